@@ -70,6 +70,22 @@ func init() {
 	addRules("C19", "R-SIZEPAIR")
 	addRules("C20", "R-TXPAIR")
 	addRules("C21", "R-RAWREAD")
+	for _, id := range []string{"C11", "C12", "C15", "C16", "C17", "C18"} {
+		addRules(id, "R-MERGING-SCOPE")
+	}
+	addRules("C10", "R-STATUS-USE", "R-COMMITSET-ALWAYS")
+	addRules("C22", "R-STATUS-USE", "R-FILEID-READ")
+	addRules("C19", "R-STATUS-USE")
+	addRules("C15", "R-COMMITSET", "R-COMMITSET-ALWAYS")
+	addRules("C16", "R-COMMITSET", "R-COMMITSET-ALWAYS", "R-MARKER")
+	addRules("C17", "R-GLOBALS")
+	addRules("C18", "R-LOCKMAP")
+	addRules("C12", "R-RECOVER", "R-RECOVER-ORDER")
+	addRules("C13", "R-ZSCORE")
+	addRules("C09", "R-CODEC")
+	reg("R-MERGING-SCOPE", "Either every path from the store of true into DB.isMerging to a return of Merge passes a store of false, or every test of DB.isMerging in the module controls no store, call or return (it only selects a constant): a flag that outlives the merge must not switch behaviour.", ruleMergingScope)
+	reg("R-STATUS-USE", "Every comparison of a record's MetaData.status with Committed is the recovery guard of an insertion into the committed-id set keyed by the same record's txID; read paths never filter on the on-disk status (only a transaction's last record carries it).", ruleStatusUse)
+	reg("R-COMMITSET-ALWAYS", "The commit-time registration in DB.committedTxIds is controlled only by the marker-record test, the index mode, the write loop's own size/loop tests and error tests: no additional condition can leave a committed transaction unregistered.", ruleCommitSetAlways)
 	addRules("C01", "R-LOGGED", "R-FILEID-READ", "R-ORDER")
 	addRules("C02", "R-LOGGED", "R-BOUNDS-LIVE", "R-ORDER")
 	addRules("C03", "R-LIVE", "R-NEWEST", "R-FILEID-READ")
@@ -91,7 +107,8 @@ func init() {
 	reg("R-COMMITSET", "In the commit path a transaction id is put into DB.committedTxIds only under index == len(pendingWrites)-1 and after the nil result of the record's WriteAt.", ruleCommitSet)
 	addRules("C07", "R-ZSCORE")
 	reg("R-ZSCORE", "In ds/zset the ordering keys (score, key) of a skiplist node are stored only while the node is constructed; an in-place score store on a linked node must be dominated by strict comparisons placing the new score between both level-0 neighbours' scores (or by their absence).", ruleZScore)
-	addRules("C20", "R-ALLOC-BOUND")
+	addRules("C20", "R-ALLOC-BOUND", "R-LASTELEM")
+	reg("R-LASTELEM", "Every element access or slice start at (S - k), k >= 1, where S is a length (len(...) or a module function returning one), is dominated by a comparison establishing S >= k.", ruleLastElem)
 	reg("R-ALLOC-BOUND", "No make() in the module takes a length or capacity that derives (arithmetic, conversions, phis, module calls and their results) from an integer parameter of an exported Tx method or from an integer the appliers decode from a stored record, unless an upper clamp against an untainted bound intervenes.", ruleAllocBound)
 	addRules("C15", "R-MERGE-EVERY", "R-MERGE-NEWER")
 	addRules("C16", "R-MERGE-EVERY")
